@@ -86,8 +86,17 @@ def items(toks):
                 elif kn:
                     # Verus syntax only (authoring helper): a brace block inside a contract clause (`ensures match r {..}`) is
                     # followed by the real body; never happens in plain Rust
-                    while kn[0] == 'fn' and j + 1 < hi and toks[j + 1][1] == '{':
-                        j = _match_close(toks, j + 1)
+                    ITEM_START = ('pub', 'fn', 'spec', 'proof', 'exec', 'open', 'closed', 'uninterp', 'broadcast', 'impl', 'struct', 'enum',
+                                  'type', 'const', 'static', 'trait', 'mod', 'use', 'unsafe', 'axiom', 'global', '}', '#')
+                    while kn[0] == 'fn' and j + 1 < hi and toks[j + 1][1] not in ITEM_START:
+                        q = j + 1
+                        while q < hi and toks[q][1] != '{':
+                            if toks[q][1] in ('(', '['):
+                                q = _match_close(toks, q)
+                            q += 1
+                        if q >= hi:
+                            break
+                        j = _match_close(toks, q)
                     end = j + 1
                     out.append((container, start, end, kn[0], kn[1]))
                 elif htx[:2] == ['verus', '!']:
